@@ -133,9 +133,9 @@ class Session:
         self.p_early_request = rng.choice([0.0, 0.3, 0.7, 1.0])
         self.p_at_completion = rng.choice([0.0, 0.3, 0.6])
         self.p_reset = rng.choice([0.0, 0.0, 0.3, 0.6])
-        self.first_seq_boost = rng.random() < 0.25     # run many tiny packets so that the sequence number wraps
+        self.first_seq_boost = rng.random() < 0.3      # many small packets so that the sequence number wraps (needs > 32 packets)
         if self.first_seq_boost and self.mps == 16:
-            extra = [rng.randint(5, 15) if self.clean else rng.choice([16 + rng.randint(5, 15), rng.randint(5, 15), 7]) for _ in range(rng.randint(12, 20))]
+            extra = [rng.randint(5, 15) if self.clean else rng.choice([16 + rng.randint(5, 15), rng.randint(5, 15), 7]) for _ in range(rng.randint(34, 44))]
             self.lengths = self.lengths + extra
         self.desc = {"mps": self.mps, "ep": self.ep, "profile": "saturated" if self.clean else "hostile", "lengths": self.lengths[:12],
                      "endless_words": self.endless_words, "gaps": self.gap_profile, "tx_ready": self.ready_profile,
